@@ -88,7 +88,30 @@ func ReadAllSized(r io.Reader, bufs []int, expectLen int) (data []byte, reads in
 		bufs = []int{512}
 	}
 	limit := 2*expectLen + 64
+	// consumption style, a pure function of the buffer sizes: plain Read loop (half of the cases),
+	// or one Read followed by io.Copy (WriteTo of the reader, when it has one), or one Read
+	// followed by io.ReadAll. A reader yields exactly the stored bytes however it is consumed.
+	style := 0
+	for _, b := range bufs {
+		style += b
+	}
+	style = (style + len(bufs)) % 4
 	for i := 0; ; i++ {
+		if i == 1 && style >= 2 {
+			var rest []byte
+			var e error
+			if style == 2 {
+				var bb bytes.Buffer
+				_, e = io.Copy(&bb, r)
+				rest = bb.Bytes()
+			} else {
+				rest, e = io.ReadAll(r)
+			}
+			if len(rest) > 4*limit+4096 {
+				return data, i + 1, fmt.Errorf("reader delivered %d more bytes after the first Read (%d expected in total)", len(rest), expectLen)
+			}
+			return append(data, rest...), i + 1, e
+		}
 		if i > limit {
 			return data, i, fmt.Errorf("reader did not reach EOF within %d Read calls (%d bytes so far)", limit, len(data))
 		}
